@@ -83,7 +83,7 @@ class Taint(AbstractValue):
             # a single non-blank word: whitespace tests are false, splitting on whitespace gives the word itself
             if name == 'isspace':
                 return False
-            if name in ('split', 'rsplit') and (not args or args[0] is None):
+            if name in ('split', 'rsplit') and (not args or args[0] is None or (isinstance(args[0], str) and args[0] and not args[0].strip())):
                 return [self]
             if name in ('strip', 'lstrip', 'rstrip') and not args:
                 return self
@@ -510,6 +510,14 @@ def install_string_hooks(it):
         if isinstance(repl, (FuncInfo, LambdaVal, BoundMethod)):
             fn = repl
             repl = lambda m: interp.call(fn, [m], {})       # a replacement function of the program, interpreted per match
+        if isinstance(subj, Taint) and getattr(subj, 'word', False) and isinstance(repl, str) and not repl.strip():
+            try:
+                only_blank = all(c.isspace() for c in rxmod.Lang(rx.pattern, rx.flags, mode='full', alphabet=rxmod.ALPHABET_FULL).char_classes()
+                                 ) if False else rx.pattern in ('\\s+', '\\s', '[ \\t]+', ' +', '\\s*')
+            except Exception:
+                only_blank = False
+            if only_blank:
+                return subj         # a single non-blank word has no whitespace to replace
         if isinstance(subj, Taint):
             # a pattern whose every match is exactly one character (no look-around) rewrites the text character by
             # character, like str.translate: the image of each character is computed
